@@ -1,2 +1,15 @@
 #!/bin/sh
+# Build the Coq development from files on disk only (offline). Translators regenerate coq/gen/*.v
+# from /repo's working tree first.
+cd "$(dirname "$0")"
+/venv/bin/python - <<'PY'
+import sys
+sys.path.insert(0, 'harness')
+import lib
+with lib.Lock():
+    errs = lib.run_translators()
+    for e in errs: print('translator error:', e)
+    lib.coq_project()
+PY
+cd coq && timeout 3600 make -k -j16 2>&1 | tail -n 40
 exit 0
